@@ -10,6 +10,7 @@ for f in sorted(glob.glob("/verif/seeded/*/meta.json")):
     rows.append("| `%s` | %s | %s | %s |" % (d, m["needs_to_manifest"].replace("|", "/"), m["caught_by"].replace("|", "/"), conf))
 tab = "| seeded change (`/verif/seeded/<dir>`) | needs, to manifest | reported by | suite with change; demonstration with/without |\n|---|---|---|---|\n" + "\n".join(rows)
 s = open("/verif/DESIGN.md").read()
-s2 = re.sub(r"(<!-- seeded-table -->\n).*?(\n<!-- /seeded-table -->)", lambda m: m.group(1) + tab + m.group(2), s, flags=re.S)
+s2 = re.sub(r"(<!-- seeded-table -->\n)(?:.*?\n)?(<!-- /seeded-table -->)", lambda m: m.group(1) + tab + "\n" + m.group(2), s, flags=re.S)
 open("/verif/DESIGN.md", "w").write(s2)
+assert s2 != s or tab in s, "markers not found"
 print(len(rows), "rows")
